@@ -2,7 +2,10 @@
 
 package store
 
-import "time"
+import (
+	"strconv"
+	"time"
+)
 
 // VerifReadState is the node-local state the read path bases its decisions on.
 // It exists only in builds with the verif tag and is read by the simulation
@@ -61,4 +64,10 @@ func (s *Store) VerifAbandon() {
 	if s.raftTn != nil {
 		s.raftTn.Close()
 	}
+}
+
+// VerifLastLogTerm returns the term of the last entry of the raft log.
+func (s *Store) VerifLastLogTerm() uint64 {
+	t, _ := strconv.ParseUint(s.raft.Stats()["last_log_term"], 10, 64)
+	return t
 }
